@@ -228,11 +228,15 @@ def nodes_time_unconstrained(tree_sequence):
     nodes_time = tree_sequence.nodes_time.copy()
     metadata = tree_sequence.tables.nodes.metadata
     metadata_offset = tree_sequence.tables.nodes.metadata_offset
+    schema = tree_sequence.table_metadata_schemas.node
     for index, met in enumerate(tskit.unpack_bytes(metadata, metadata_offset)):
         if index not in tree_sequence.samples():
             try:
-                nodes_time[index] = json.loads(met.decode())["mn"]
-            except (KeyError, json.decoder.JSONDecodeError) as err:
+                if schema.schema is None:  # raw JSON bytes written without a schema
+                    nodes_time[index] = json.loads(met.decode())["mn"]
+                else:  # decode with the table codec (JSON or struct)
+                    nodes_time[index] = schema.decode_row(met)["mn"]
+            except (KeyError, TypeError, ValueError) as err:
                 raise ValueError(
                     "Tree Sequence must be tsdated with the Inside-Outside Method."
                 ) from err
